@@ -24,8 +24,8 @@ for d in sorted(glob.glob(f"{V}/seeded/*")):
     r = m.get("check_result", "?"); _rows[(w, r)] += 1; _n[w] += 1
     if r != "caught":
         _first[(w, r)].append(b.split("-")[0])
-print("""Three waves of 43 changes each (one per property and wave) and a fourth wave of 10 (the properties whose checks had
-missed most often), planted by fresh sub-agents that saw only the property text and their own scratch worktree of
+print(f"""Three waves of 43 changes each (one per property and wave) and a fourth wave of {_n[4]} (the properties whose checks had
+missed or been caught only by obligation in earlier waves), planted by fresh sub-agents that saw only the property text and their own scratch worktree of
 `/repo`; later waves were also told the summaries of the earlier changes for the same property so that they differ in
 site, mechanism and clause. Each was confirmed by the coordinator (`tools/try_seed.sh`: demo OK on `/repo`, VIOLATED on
 the patched tree, then `VERIF_REPO=<tree> ./check Cnn --tier quick`). First-run outcome per wave:
@@ -38,11 +38,11 @@ Every miss and every obligation-only catch led to a strengthened check (generato
 model lacked the dimension, new model operations and theorems); the column "AFTER STRENGTHENING" was re-measured by the
 coordinator (`tools/reconfirm.sh`). At the end all {sum(_n.values())} kept changes make their property's check exit 1 with a concrete
 replay (`tools/reconfirm_all.sh` over waves 1-3, result in `/verif/seeded_reconfirm_summary.txt`; wave 4 by
-`tools/reconfirm.sh`). The recurring causes of a miss were: single requests where the defect needs a *history* on one
+`tools/reconfirm.sh` or, for the last three, by the property worker's `tools/try_seed.sh` run). The recurring causes of a miss were: single requests where the defect needs a *history* on one
 object (C05 C10 C14 C20 C22 C24 C32 C38 C42), an input dimension absent from the generator (C02 annotation spellings and
 dataclass inheritance, C09 cross-product, C15 token classes, C31 encoding pairs, C34 instants, C39 empty schemas), and
-zero-read / fault paths (C08 C10 C38). Wave 4 re-tested exactly the properties with earlier misses: 7 of 10 were caught
-with a replay at once, 1 missed (C02), 2 by obligation only (C05, C10) - then strengthened. Two strengthenings exposed
+zero-read / fault paths (C08 C10 C38). Wave 4 re-tested the properties with earlier misses: {_rows[(4,'caught')]} of {_n[4]} were caught
+with a replay at once, {_rows[(4,'missed')]} missed ({' '.join(_first[(4,'missed')])}), {_rows[(4,'caught-obligation-only')]} by obligation only ({' '.join(_first[(4,'caught-obligation-only')])}) - then strengthened. Two strengthenings exposed
 genuine defects of the unchanged tree, repaired by e0af9e7 (C02) and 1c2e3a8 (C32). Three kept seeds patched code
 that 1c2e3a8 rewrote and were rebased by hand (C08-3, C29-3, C32-3; originals kept as `patch-at-9cd32f4.diff`).
 """)
